@@ -314,7 +314,8 @@ RunAnd(K, t, ch, d, sawUnk, started, st) ==
 
 \* one operand of a rewrite
 Child(K, t, c, d, st) ==
-  CASE c.k = "css" -> IF d < 0 THEN Out(Unk, Cut(st)) ELSE CIA(K, Tup(t[1], t[2], c.rel, t[4]), d, FALSE, st)
+  \* (since the repair recorded as C15-css-cycle-unbounded the hop onto the computed relation consumes one level, as in the shortcut)
+  CASE c.k = "css" -> IF d < 0 THEN Out(Unk, Cut(st)) ELSE CIA(K, Tup(t[1], t[2], c.rel, t[4]), d - 1, FALSE, st)
     [] c.k = "ttu" ->
          IF d < 0 THEN Out(Unk, Cut(st))
          ELSE IF Fails(K, st) THEN Out(ErrR, Call(st))
